@@ -542,6 +542,7 @@ def _create_sbml_reactions(
     sbml_model: libsbml.Model,
 ) -> None:
     """Create the reactions for the sbml model."""
+    n_references: dict[str, int] = {}
     for name, rxn in model.get_raw_reactions().items():
         sbml_rxn = sbml_model.createReaction()
         sbml_rxn.setId(_convert_id_to_sbml(id_=name, prefix="RXN"))
@@ -562,7 +563,12 @@ def _create_sbml_reactions(
                 case Derived():
                     # SBML uses species references for derived stoichiometries
                     # So we need to create a assignment rule and then refer to it
+                    # Every computed coefficient needs its own reference: the first one of
+                    # a species keeps the plain name, further ones are numbered
+                    n_references[compound_id] = n_references.get(compound_id, 0) + 1
                     reference = f"{compound_id}ref"
+                    if n_references[compound_id] > 1:
+                        reference = f"{reference}{n_references[compound_id]}"
                     _create_derived_parameter(sbml_model, reference, factor)
 
                     # The sign of a computed coefficient is only known at run time:
